@@ -99,8 +99,18 @@ def _capture():
         def progress_bar(self, *args, **kwargs):
             pass
 
+    # Kconfig.__init__ tries to import the optional user module `kconfigfunctions` on every construction (a failing
+    # path search of ~0.2 ms); an empty one gives the same behaviour without the search
+    import sys
+    import types
+
+    if "kconfigfunctions" not in sys.modules and not os.environ.get("KCONFIG_FUNCTIONS"):
+        m = types.ModuleType("kconfigfunctions")
+        m.functions = {}
+        sys.modules["kconfigfunctions"] = m
     _cap = Capture()
-    EspLog.set_logger(_cap)
+    _cap.install = lambda: EspLog.instance is _cap or EspLog.set_logger(_cap)
+    _cap.install()
     return _cap
 
 
@@ -113,6 +123,7 @@ def worker_init():
 # ----------------------------------------------------------------------------------------------------------
 
 CFG_FLAVOURS = ("help", "contmid", "contlast", "cmt", "plain", "str")
+BOOL_FLAVOURS = ("help", "contlast", "cmt", "plain")  # choice members
 LEAVES = ("cfg", "mcfg", "cmt", "src")
 SRC_KW = ("source", "rsource", "osource", "orsource")
 
@@ -167,6 +178,18 @@ def chains() -> Iterator[tuple]:
                 yield (node,)
 
 
+def depth_of(forest: tuple) -> int:
+    """container nesting depth"""
+    return max([0] + [1 + depth_of(n[1]) for n in forest if len(n) > 1 and isinstance(n[1], tuple)])
+
+
+def leaf_of(forest: tuple) -> str:
+    n = forest[0]
+    while len(n) > 1 and isinstance(n[1], tuple) and n[1] and n[0] != "choice":
+        n = n[1][0]
+    return n[0]
+
+
 def n_entries(forest: tuple) -> int:
     n = 0
     for node in forest:
@@ -192,9 +215,10 @@ class Rend:
         self.add(0, "", "blank")
 
     # -- entries
-    def cfg(self, ind: int, name: str, flavour: Optional[str] = None, kw: str = "config") -> None:
+    def cfg(self, ind: int, name: str, flavour: Optional[str] = None, kw: str = "config", member: bool = False) -> None:
         if flavour is None:
-            flavour = CFG_FLAVOURS[(self.ncfg + self.rot) % len(CFG_FLAVOURS)]
+            fl = BOOL_FLAVOURS if member else CFG_FLAVOURS
+            flavour = fl[(self.ncfg + self.rot) % len(fl)]
             self.ncfg += 1
         i2 = ind + 4
         if flavour == "help":
@@ -246,10 +270,10 @@ class Rend:
             raise ValueError(flavour)
         self.blank()
 
-    def node(self, node: tuple, ind: int, name: str) -> None:
+    def node(self, node: tuple, ind: int, name: str, member: bool = False) -> None:
         k = node[0]
         if k == "cfg":
-            self.cfg(ind, name, node[1] if len(node) > 1 else None)
+            self.cfg(ind, name, node[1] if len(node) > 1 else None, member=member)
         elif k == "mcfg":
             self.cfg(ind, name, "mhelp", "menuconfig")
         elif k == "cmt":
@@ -302,15 +326,15 @@ class Rend:
                 self.add(ind + 8, "Choice help.", "help.first")
             self.nother += 1
             self.blank()
-            self.children(node[1], ind + 4, name)
+            self.children(node[1], ind + 4, name, member=True)
             self.add(ind, "endchoice", "endchoice")
             self.blank()
         else:
             raise ValueError(k)
 
-    def children(self, forest: tuple, ind: int, prefix: str) -> None:
+    def children(self, forest: tuple, ind: int, prefix: str, member: bool = False) -> None:
         for i, ch in enumerate(forest):
-            self.node(ch, ind, f"{prefix}_{i}")
+            self.node(ch, ind, f"{prefix}_{i}", member)
 
 
 def _finish(lines: List[Tuple[str, str]]) -> List[Tuple[str, str]]:
@@ -357,31 +381,38 @@ def programs(tier: str) -> List[Dict[str, Any]]:
         seen.add(key)
         out.append({"forest": forest, "rot": rot, "pos": pos, "D": dist, "tag": tag})
 
-    d_small = 2 if tier == "quick" else 6
-    for n in (1, 2):
-        for f in forests(n, 3):
-            for rot in range(len(CFG_FLAVOURS)):
-                for pos in ("main", "sub"):
-                    emit(f, rot, pos, d_small, f"n{n}")
+    nfl = len(CFG_FLAVOURS)
+
+    def hrot(f):
+        return common.h64(repr(f)) % nfl
+
+    def hpos(f):
+        return ("main", "sub")[common.h64(repr(f) + "p") % 2]
+
+    thorough = tier == "thorough"
+    for f in forests(1, 3):
+        for rot in range(nfl):
+            for pos in ("main", "sub"):
+                emit(f, rot, pos, 3 if thorough else 1, "n1")
+    for f in forests(2, 3):
+        for rot in range(nfl) if thorough else (hrot(f),):
+            for pos in ("main", "sub") if thorough else (hpos(f),):
+                emit(f, rot, pos, 2 if thorough else 1, "n2")
     for f in chains():
-        rot = common.h64(repr(f)) % len(CFG_FLAVOURS)
-        for pos in ("main", "sub"):
-            emit(f, rot, pos, d_small, "chain")
+        if not thorough and depth_of(f) == 3 and leaf_of(f) in ("mcfg", "cmt", "src"):
+            continue
+        for pos in ("main", "sub") if thorough else (hpos(f),):
+            emit(f, hrot(f), pos, 2 if thorough else 1, "chain")
     # constructs the documented rules do not forbid, kept in dedicated programs
     for f in ((("cfg", "strhash"),), (("cfg", "plain"), ("if", (("uchoice", (("cfg", "plain"), ("cfg", "plain"))),)))):
         for pos in ("main", "sub"):
-            emit(f, 0, pos, d_small, "extra")
-    if tier == "thorough":
+            emit(f, 0, pos, 2 if thorough else 1, "extra")
+    if thorough:
         for f in forests(3, 3):
-            rot = common.h64(repr(f)) % len(CFG_FLAVOURS)
-            for pos in ("main", "sub"):
-                emit(f, rot, pos, 6, "n3")
+            emit(f, hrot(f), hpos(f), 1, "n3")
         for f in forests(4, 3):
-            if len(f) != 1:
-                continue
-            rot = common.h64(repr(f)) % len(CFG_FLAVOURS)
-            pos = "main" if common.h64(repr(f) + "p") % 2 == 0 else "sub"
-            emit(f, rot, pos, 3, "n4")
+            if len(f) == 1 and depth_of(f) >= 2 and common.h64(repr(f) + "s") % 2 == 0:
+                emit(f, hrot(f), hpos(f), 1, "n4")
     return out
 
 
@@ -486,38 +517,72 @@ def apply_ops(lines: List[str], ops: List[Tuple[int, str]]) -> Optional[str]:
     return "".join(l + "\n" for l in out)
 
 
-def manglings(lines: List[str], dist: int, alphabet: Tuple[str, ...]) -> Iterator[Tuple[Tuple[Tuple[int, str], ...], str]]:
-    """ALL single-site manglings, ALL two-site manglings within the line distance, the global manglings.
-    Deterministic order; manglings producing bytes already produced are merged."""
-    canon = "".join(l + "\n" for l in lines)
-    seen = {canon}
+def site_table(lines: List[str], alphabet: Tuple[str, ...]) -> Tuple[List[Tuple[int, str]], List[float]]:
+    """all applicable (line, op) sites in deterministic order (ops giving the same bytes for a line are merged), and the
+    position of every line counted in non-blank lines (a blank line sits half a step after its predecessor)"""
     sites: List[Tuple[int, str]] = []
+    coord: List[float] = []
+    c = -1.0
     for li, line in enumerate(lines):
+        c = float(int(c) + 1) if line else int(c) + 0.5
+        coord.append(c)
+        got = set()
         for op in alphabet:
-            if apply_op(line, op) is not None:
+            t = apply_op(line, op)
+            if t is not None and t not in got:
+                got.add(t)
                 sites.append((li, op))
-    for s in sites:
-        t = apply_ops(lines, [s])
-        if t not in seen:
-            seen.add(t)
-            yield (s,), t
-    for i, a in enumerate(sites):
-        for b in sites[i + 1 :]:
-            if b[0] - a[0] > dist:
-                break
-            if a[0] == b[0] and op_class(a[1]) == op_class(b[1]):
-                continue
-            t = apply_ops(lines, [a, b])
-            if t is None or t in seen:
-                continue
-            seen.add(t)
-            yield (a, b), t
-    if alphabet is not REN_OPS:
+    return sites, coord
+
+
+def partners(sites, coord, i: int, dist: float) -> Iterator[int]:
+    """indices j > i of the sites that form a two-site mangling with site i"""
+    a = sites[i]
+    for j in range(i + 1, len(sites)):
+        b = sites[j]
+        if coord[b[0]] - coord[a[0]] > dist:
+            break
+        if a[0] == b[0] and op_class(a[1]) == op_class(b[1]):
+            continue
+        yield j
+
+
+def manglings(lines: List[str], dist: float, alphabet: Tuple[str, ...], lo: int = 0, hi: Optional[int] = None):
+    """For every first site in sites[lo:hi]: its single-site mangling, then ALL its two-site manglings within the line
+    distance; the global manglings belong to the chunk with lo == 0.  Yields (ops, text)."""
+    sites, coord = site_table(lines, alphabet)
+    hi = len(sites) if hi is None else min(hi, len(sites))
+    for i in range(lo, hi):
+        a = sites[i]
+        yield (a,), apply_ops(lines, [a])
+        for j in partners(sites, coord, i, dist):
+            t = apply_ops(lines, [a, sites[j]])
+            if t is not None:
+                yield (a, sites[j]), t
+    if lo == 0 and alphabet is not REN_OPS:
+        canon = "".join(l + "\n" for l in lines)
+        got = {canon}
         for g in GLOBAL_OPS:
             t = apply_ops(lines, [(-1, g)])
-            if t not in seen:
-                seen.add(t)
+            if t not in got:
+                got.add(t)
                 yield ((-1, g),), t
+
+
+def chunks(lines: List[str], dist: float, alphabet: Tuple[str, ...], size: int) -> List[Tuple[int, int, int]]:
+    """[(lo, hi, number of manglings)] partition of the first-site range into work items of about `size` manglings"""
+    sites, coord = site_table(lines, alphabet)
+    out = []
+    lo = 0
+    n = 0
+    for i in range(len(sites)):
+        n += 1 + sum(1 for _ in partners(sites, coord, i, dist))
+        if n >= size:
+            out.append((lo, i + 1, n))
+            lo, n = i + 1, 0
+    if n or not out:
+        out.append((lo, len(sites), n))
+    return out
 
 
 # ----------------------------------------------------------------------------------------------------------
@@ -573,28 +638,37 @@ def struct_dump(k) -> tuple:
     return tuple(out)
 
 
-def dump_diff(a: tuple, b: tuple) -> str:
-    """name of the first differing field (failure-class detail)"""
-    if a[0] != b[0]:
-        return "mainmenu"
-    if a[1] != b[1]:
-        return "variables"
+def _field_class(f: str, u: Any, v: Any) -> str:
+    if f in ("help", "prompt") and isinstance(u, str) and isinstance(v, str):
+        if [x.strip() for x in u.split("\n")] == [x.strip() for x in v.split("\n")]:
+            return f + "_leading_ws"
+        if u.split() == v.split():
+            return f + "_inner_ws"
+    if f == "defaults" and len(u) == len(v) and all(p[0].split() == q[0].split() and p[1] == q[1] for p, q in zip(u, v)):
+        return "defaults_inner_ws"
+    return f
+
+
+def dump_diff(a: tuple, b: tuple, alt: Optional[tuple] = None) -> Optional[str]:
+    """Name of the first field of dump `b` that differs from dump `a` -- and, if `alt` is given and has the same shape,
+    from `alt` as well (every observable must keep one of the two readings).  None if there is no such field."""
+    if alt is not None and len(alt) != len(b):
+        alt = None
     if len(a) != len(b):
-        return "node_count"
-    for x, y in zip(a[2:], b[2:]):
-        if x == y:
+        if alt is None:
+            return "node_count"
+        a, alt = alt, None
+    for i, (x, y) in enumerate(zip(a, b)):
+        if x == y or (alt is not None and alt[i] == y):
             continue
-        for f, u, v in zip(FIELDS, x, y):
-            if u != v:
-                if f in ("help", "prompt") and isinstance(u, str) and isinstance(v, str):
-                    if [s.strip() for s in u.split("\n")] == [s.strip() for s in v.split("\n")]:
-                        return f + "_leading_ws"
-                    if u.split() == v.split():
-                        return f + "_inner_ws"
-                if f == "defaults" and len(u) == len(v) and all(p[0].split() == q[0].split() and p[1] == q[1] for p, q in zip(u, v)):
-                    return "defaults_inner_ws"
-                return f
-    return "?"
+        if i < 2:
+            return ("mainmenu", "variables")[i]
+        z = alt[i] if alt is not None else None
+        for j, (f, u, v) in enumerate(zip(FIELDS, x, y)):
+            if u != v and (z is None or z[j] != v):
+                return _field_class(f, u, v)
+        return "?"
+    return None
 
 
 def exc_site(e: BaseException) -> str:
@@ -636,6 +710,8 @@ class Ctx:
         shutil.rmtree(self.base, ignore_errors=True)
         self.pd = os.path.join(self.base, "parse")
         os.makedirs(self.pd)
+        self.cwd = os.getcwd()
+        os.chdir(self.pd)  # `source "Kconfig.x"` is resolved against the working directory
         for fn, t in files.items():
             with open(os.path.join(self.pd, fn), "w") as f:
                 f.write(t)
@@ -649,6 +725,7 @@ class Ctx:
         self._rk = None
 
     def close(self) -> None:
+        os.chdir(self.cwd)
         shutil.rmtree(self.base, ignore_errors=True)
 
     # ---- meaning of a text of the target file
@@ -664,10 +741,8 @@ class Ctx:
             kl = impl.lib()
             with open(os.path.join(self.pd, self.target), "w") as f:
                 f.write(text)
-            cwd = os.getcwd()
             k = None
             try:
-                os.chdir(self.pd)
                 k = kl.Kconfig(os.path.join(self.pd, "Kconfig"), parser_version=version)
                 m = ("ok", struct_dump(k))
             except KeyboardInterrupt:
@@ -675,7 +750,6 @@ class Ctx:
             except BaseException as e:  # noqa: BLE001 -- rejection by the parser is an observation
                 m = ("exc", type(e).__name__, exc_site(e))
             finally:
-                os.chdir(cwd)
                 rep = k.report if k is not None else getattr(type(self)._last_k, "report", None)
                 if rep is not None:
                     rep.reset()  # process-wide singleton, not reset by Kconfig()
@@ -723,6 +797,8 @@ class Ctx:
         path = os.path.join(d, self.target)
         with open(path, "w") as f:
             f.write(text)
+        # the first Kconfig() of a process installs kconfiglib's own logger (report.py: CachingLog); take it back
+        _cap.install()
         _cap.msgs.clear()
         try:
             try:
@@ -743,7 +819,11 @@ class Ctx:
             return ("ret", ok, out, said_ok, left, errs[0] if errs else "")
         finally:
             _cap.msgs.clear()
-            shutil.rmtree(d, ignore_errors=True)
+            try:
+                os.unlink(path)
+                os.rmdir(d)
+            except OSError:
+                shutil.rmtree(d, ignore_errors=True)
 
     def validate(self, text: str) -> tuple:
         v = self.vmemo.get(text)
@@ -796,7 +876,7 @@ def check_canonical(ctx: Ctx, r: common.Result, labels: List[str], spec: Any) ->
         if m1[0] != "ok" or m2[0] != "ok" or m1 != m2:
             # the family is built so that this does not happen; were it to, every mangling would inherit it
             good = False
-            what = dump_diff(m1[1], m2[1]) if m1[0] == m2[0] == "ok" else f"{m1[:3]} / {m2[:3]}"
+            what = dump_diff(m1[1], m2[1]) if m1[0] == m2[0] == "ok" else f"{m1[1:3]} / {m2[1:3]}"
             r.violation(
                 {"kind": "canonical_parsers_disagree", "mangling": "none", "entry": "canonical:" + constructs, "field": str(what)[:60]},
                 f"[canonical {ctx.target}] parser 1 and parser 2 do not read the canonical program alike: {what}",
@@ -896,15 +976,28 @@ def core_classes(ctx: Ctx, mtext: str, canon_meaning: tuple) -> Tuple[str, List[
     if m1[0] != "ok":
         fail(f"the fixed point is rejected by parser 1 ({m1[1]} at {m1[2]}) although the mangled input was accepted", kind="result_rejected_by_parser1", exc=m1[1])
     elif m1 != m0:
-        fld = dump_diff(m0[1], m1[1]) if ctx.family == "kconfig" else "renames"
-        fail(f"the fixed point reads differently from the mangled input under parser 1 (first difference: {fld})", kind="meaning_changed", field=fld)
+        # A mangling may itself change what parser 1 reads (indentation is significant inside help texts, a tab is 8
+        # columns for the parser, trailing blanks are part of a macro value).  Every observable of the fixed point has to
+        # keep the reading of the mangled input or return to the reading of the compliant file it was made from.
+        if ctx.family == "kconfig":
+            fld = dump_diff(m0[1], m1[1], canon_meaning[1])
+        else:
+            fld = None if m1 == canon_meaning else "renames"
+        if fld is None:
+            info["restored"] = True
+        else:
+            fail(f"the fixed point reads differently from the mangled input under parser 1 (first difference: {fld})", kind="meaning_changed", field=fld)
     if ctx.family == "kconfig" and m1[0] == "ok":
         m2 = ctx.meaning(fixed, 2)
-        if m2[0] != "ok":
-            fail(f"the fixed point is rejected by parser 2 ({m2[1]} at {m2[2]})", kind="result_rejected_by_parser2", exc=m2[1])
-        elif m2 != m1:
-            fld = dump_diff(m1[1], m2[1])
-            fail(f"parser 2 reads the fixed point differently from parser 1 (first difference: {fld})", kind="result_parsers_disagree", field=fld)
+        if m2 != m1:
+            # is it the checker's doing, or do the parsers already disagree on the mangled input?
+            m20 = ctx.meaning(mtext, 2)
+            same_on_input = m20 == m0
+            if m2[0] != "ok":
+                fail(f"the fixed point is rejected by parser 2 ({m2[1]} at {m2[2]}); parser 2 on the mangled input: {m20[0]}", kind="result_rejected_by_parser2", exc=m2[1], parsers_agree_on_input=same_on_input)
+            else:
+                fld = dump_diff(m1[1], m2[1])
+                fail(f"parser 2 reads the fixed point differently from parser 1 (first difference: {fld}); parsers agree on the mangled input: {same_on_input}", kind="result_parsers_disagree", field=fld, parsers_agree_on_input=same_on_input)
     return "done", fails, info
 
 
@@ -918,6 +1011,8 @@ def evaluate(ctx: Ctx, r: common.Result, lines: List[str], labels: List[str], op
     r.evals += 1
     r.count(f"passes_{info['passes']}")
     r.count("reading_" + info["reading"])
+    if info.get("restored"):
+        r.count("shifted_reading_restored_to_canonical")
     fixed = info.get("fixed")
     if fixed is not None:
         r.count("fixed_point_is_canonical" if fixed == ctx.files[ctx.target] else "fixed_point_not_canonical")
@@ -997,10 +1092,7 @@ def rename_programs(tier: str) -> List[Tuple[str, ...]]:
 # ----------------------------------------------------------------------------------------------------------
 
 CHUNK = 2500
-
-
-def count_manglings(lines: List[str], dist: int, alphabet) -> int:
-    return sum(1 for _ in manglings(lines, dist, alphabet))
+KALPHA = IND_OPS + TRAIL_OPS + STR_OPS
 
 
 def items(tier: str, seed: int):
@@ -1010,9 +1102,8 @@ def items(tier: str, seed: int):
         for target, ls in files.items():
             if target == "Kconfig" and spec["pos"] == "sub" and spec["tag"] != "n1":
                 continue  # the 3-line root of sourced bodies is identical everywhere; mangled once per n=1 program
-            n = count_manglings([l for l, _ in ls], spec["D"], IND_OPS + TRAIL_OPS + STR_OPS)
-            for lo in range(0, max(n, 1), CHUNK):
-                out.append({"family": "kconfig", "spec": spec, "target": target, "lo": lo, "hi": min(n, lo + CHUNK)})
+            for lo, hi, n in chunks([l for l, _ in ls], spec["D"], KALPHA, CHUNK):
+                out.append({"family": "kconfig", "spec": spec, "target": target, "lo": lo, "hi": hi, "n": n})
     rens = rename_programs(tier)
     per = 8
     for i in range(0, len(rens), per):
@@ -1030,24 +1121,22 @@ def run_kconfig_item(item, r: common.Result) -> None:
     ctx = Ctx(files, target)
     try:
         r.programs = 1 if item["lo"] == 0 else 0
-        good = True
         if item["lo"] == 0:
-            good = check_canonical(ctx, r, labels, spec)
+            check_canonical(ctx, r, labels, spec)
+        # the statement about manglings presupposes a compliant file the checker accepts and both parsers read
+        v = ctx.validate(files[target])
         canon_meaning = ctx.meaning(files[target], 1)
-        if not good and canon_meaning[0] != "ok":
-            r.count("manglings_not_run_canonical_unparsable")
-            return
-        if not good:
-            # the statement about manglings presupposes a canonical file the checker accepts
-            r.count("programs_whose_canonical_form_is_refused")
+        if not (v[0] == "ret" and v[1] and v[2] == files[target]) or canon_meaning[0] != "ok" or ctx.meaning(files[target], 2) != canon_meaning:
+            r.count("work_items_not_mangled_because_canonical_form_is_refused")
             return
         single_cache: Dict[Tuple[int, str], set] = {}
         n = 0
-        for i, (ops, mtext) in enumerate(manglings(lines, spec["D"], IND_OPS + TRAIL_OPS + STR_OPS)):
-            if i < item["lo"]:
+        seen = set()
+        for ops, mtext in manglings(lines, spec["D"], KALPHA, item["lo"], item["hi"]):
+            if mtext in seen:
+                r.count("duplicate_mangled_bytes")
                 continue
-            if i >= item["hi"]:
-                break
+            seen.add(mtext)
             evaluate(ctx, r, lines, labels, ops, mtext, canon_meaning, spec, single_cache)
             n += 1
         r.count("validate_file_real_calls", ctx.real_calls)
